@@ -215,3 +215,12 @@ Definition fpath_ctx28 (c : fpath_case) : Z :=
   | None => 0
   end.
 Definition chk_fpath_both (c : fpath_case) : Z := chk_fpath c + 4 * fpath_ctx28 c.
+
+(* ---- spec validation: the text of a path.  Written text, str(pathlib.Path(w)), os.path.normpath(w) of CPython:
+   path_str and normpath (Model/C17Path.v) give the same texts, and `strikes` holds exactly where the two differ. *)
+Require Import Hdl21.Model.C17Path.
+Definition path_case := (string * string * string)%type.
+Definition chk_path (c : path_case) : Z :=
+  let '(w, ps, np) := c in
+  if String.eqb (path_str w) ps && String.eqb (normpath w) np &&
+     Bool.eqb (strikes (negb (proot_eqb (root_of w) RNone)) None (parts_of w)) (negb (String.eqb ps np)) then 0 else 3.
